@@ -13,7 +13,9 @@ SERVER_FIELDS = {"date", "server", "via", "connection", "content-length", "trans
 EVIDENCE = {
     "rule": "pipelines of 1-3 requests; per request an application script: kind list/generator/write()/wsgi.file_wrapper "
             "(seekable or not), status 200/204/304/201, Content-Length absent/exact/larger/smaller than the bytes produced, "
-            "0-4 chunks incl. empty ones, optional late start_response, optional exception after the head; request method "
+            "0-4 chunks incl. empty ones, optional late start_response, optional exception before or after the head, exc_info "
+            "re-call, write() followed by a file, files handed over at an offset, a storage fault that truncates a handed-over "
+            "file after the server measured it; clients that half-close after their last request (lookahead 0); request method "
             "GET/POST/HEAD, HTTP/1.0 or 1.1, Connection absent/close/keep-alive; a further request is always queued behind to "
             "observe persistence; the wire is parsed by the independent client-side parser R2; distinct = distinct history "
             "digest; non-trivial = at least two requests on the connection and a body-bearing or failing first response",
